@@ -396,6 +396,7 @@ def run(ctx):
     ctx.attempt(location_candidates_rule, ctx)
     ctx.attempt(mesh_motion_rule, ctx)
     ctx.attempt(preselection_rule, ctx)
+    ctx.attempt(projector_rule, ctx, lib)
 
 
 def candidate_order_rule(ctx):
@@ -869,3 +870,73 @@ def preselection_rule(ctx):
                     r.fail(f.qualname, f"preselect:{oname}:{'int' if kind else 'float'}", f.file, f.lineno, "_Get_coord_Near", f"{label}: the coordinates {[pts[k] for k in missing][:4]} lie inside the element's bounds but are not preselected (returned: {[pts[k] for k in sorted(got)][:6]}): they are never tested against the element, the field evaluated there is 0")
                 else:
                     r.ok(f"{label}: every coordinate in the bounds is preselected")
+
+
+def projector_rule(ctx, lib):
+    """R8.17: the mesh-to-mesh projector interpolates: every row of Calc_projector(old, new) is ONE interpolation of the old
+    nodal values at the new node -- also for a new node lying on an edge shared by two old elements, which the point
+    location reports in both (its reference coordinates being those of one of them).  Calc_projector is interpreted
+    on two triangles sharing a diagonal, with a modelled sparse matrix: rows sum to one and a symbolic linear field is
+    reproduced at a node on the diagonal and at an interior node."""
+    from types import SimpleNamespace
+
+    from .c03 import XCsr
+    from ..xeval import FuncInfo, Sink as _XSink
+
+    repo = ctx.repo
+    f = repo.func("EasyFEA.FEM._mesh.Calc_projector")
+    r = ctx.rule("R8.17", "Calc_projector: each row is one interpolation (rows sum to 1, a symbolic linear field is reproduced), new node on an edge shared by two old elements included", min_instances=1)
+    r.instance(fn=f.qualname)
+    ed = lib.get("TRI3")
+    tri = ed.obj
+    old_xy = [(Q(0), Q(0)), (Q(1), Q(0)), (Q(1), Q(1)), (Q(0), Q(1))]
+    new_xy = old_xy + [(Q(1, 2), Q(1, 2)), (Q(3, 4), Q(1, 4))]
+    connect = XArray((2, 3), [0, 1, 2, 0, 2, 3])
+    # reference coordinates of the detected nodes (those of the LAST element that detected each of them)
+    xi = [(Q(0), Q(0)), (Q(1), Q(0)), (Q(1), Q(0)), (Q(0), Q(1)), (Q(1, 2), Q(0)), (Q(1, 2), Q(1, 4))]
+    mapping = (XArray((6,), list(range(6))), XArray((2,), [0, 1]), [XArray((5,), [0, 1, 2, 4, 5]), XArray((4,), [0, 2, 3, 4])], XArray((6, 2), [v for p in xi for v in p]))
+    N_of = repo.lookup_method(ed.cls, "_N")
+    I = Interp(repo, extra_builtins={"Tic": lambda *a, **k: _XSink()})
+    Ntab = I.call_function(N_of, [], self_obj=tri)
+    gold = SimpleNamespace(Get_Mapping=lambda *a, **k: mapping, _N=lambda: Ntab, nPe=3, _Get_nearby_nodes=lambda c: XArray((0,), []))
+    corners = SimpleNamespace(nodes=XArray((4,), [0, 1, 2, 3]))
+    old = SimpleNamespace(dim=2, Nn=4, groupElem=gold, connect=connect, Get_Quality=lambda *a, **k: XArray((2,), [Q(1), Q(1)]), Get_list_groupElem=lambda d=None: [corners])
+    new = SimpleNamespace(dim=2, Nn=6, coord=XArray((6, 3), [v for (x, y) in new_xy for v in (x, y, Q(0))]), Get_list_groupElem=lambda d=None: [corners])
+
+    def hook(fn, args, kwargs):
+        if isinstance(fn, Opaque) and fn.tag.endswith("csr_matrix"):
+            kwargs = {k: v for k, v in kwargs.items() if k != "dtype"}
+            if len(args) == 2:
+                return XCsr(args[0], shape=args[1])
+            return XCsr(*args, **kwargs)
+        fi = fn if isinstance(fn, FuncInfo) else getattr(fn, "finfo", None)
+        if isinstance(fi, FuncInfo) and fi.module.name.startswith("EasyFEA.Utilities"):
+            return _XSink()
+        return NotImplemented
+
+    I.call_hook = hook
+    try:
+        P = I.call_function(f, [old, new])
+    except XRaise as e:
+        r.fail(f.qualname, "projector", f.file, f.lineno, "Calc_projector", f"raises {e}")
+        return
+    if not isinstance(P, XCsr):
+        raise AnalysisError("R8.17: Calc_projector did not return the modelled sparse matrix")
+    a, b, c = Poly.var("a"), Poly.var("b"), Poly.var("c")
+    field = lambda x, y: a + b * x + c * y
+    uold = [field(x, y) for x, y in old_xy]
+    bad = None
+    for n, (x, y) in enumerate(new_xy):
+        rs = P.row_sum(n)
+        if not is_zero(Poly.of(rs) - 1):
+            bad = f"row {n} (new node at ({x}, {y})) sums to {rs}, not 1"
+            break
+        val = sum((Poly.of(v) * uold[j] for (i, j), v in P.entries.items() if i == n), Poly())
+        if not is_zero(val - field(x, y)):
+            bad = f"new node at ({x}, {y}): the projected linear field is {val!r}, expected {field(x, y)!r}"
+            break
+    if bad:
+        r.fail(f.qualname, "projector", f.file, f.lineno, "Calc_projector", f"old mesh: triangles ABC, ACD of the unit square; new nodes at the corners, at (1/2, 1/2) on the shared diagonal and at (3/4, 1/4): {bad}: a node detected in two elements receives one interpolation per element")
+    else:
+        r.ok("two triangles sharing a diagonal: rows sum to 1, linear field reproduced")
+
